@@ -34,6 +34,21 @@ CONFIGS_THOROUGH = ['sse2', 'sse2-fma', 'sse41', 'fastmath', 'scalar', 'coresimd
 FLOAT_TYPES = {'Vec2': 'f32', 'Vec3': 'f32', 'Vec3A': 'f32', 'Vec4': 'f32', 'DVec2': 'f64', 'DVec3': 'f64', 'DVec4': 'f64'}
 
 
+def _width_of(*ts):
+    """byte width of the float constants occurring in the terms (4 when none is found)"""
+    seen = set()
+    st = list(ts)
+    while st:
+        x = st.pop()
+        if not isinstance(x, tm.T) or x.id in seen:
+            continue
+        seen.add(x.id)
+        if tm.is_const(x) and tm.csize(x) in (4, 8):
+            return tm.csize(x)
+        st.extend(x.args)
+    return 4
+
+
 def fold_exact(t, memo=None):
     """IEEE-exact endpoint folding: x*1 -> x, x*0 -> 0 (x finite), x+0 -> x (up to -0 == +0), constants folded"""
     if memo is None:
@@ -65,6 +80,8 @@ def fold_exact(t, memo=None):
             for x, cx, y in ((a, ca, b), (b, cb, a)):
                 if cx == 0.0:
                     r = y
+            if r is None and ((a.op == 'fneg' and a.args[0] is b) or (b.op == 'fneg' and b.args[0] is a)):
+                r = tm.fconst(0.0, _width_of(a, b))      # x - x = +0 exactly for finite x
     elif t.op == 'fneg' and cval(args[0]) is not None:
         r = tm.fconst(-cval(args[0]), tm.csize(args[0]))
     if r is None:
@@ -302,6 +319,16 @@ def _subterms(t, op, out, seen):
 
 def _match_clamped(theta, m_atom):
     """theta == min(A, max(m, A - pi)) (any argument order)  ->  A, else None"""
+    if theta.op == 'fmax~' and len(theta.args) == 2:
+        # max(min(m, A), A - pi): the same value, because A - pi <= A
+        for mn, low in ((theta.args[0], theta.args[1]), (theta.args[1], theta.args[0])):
+            if mn.op == 'fmin~' and len(mn.args) == 2 and m_atom in mn.args and low.op == 'fadd':
+                A = mn.args[0] if mn.args[1] is m_atom else mn.args[1]
+                if A in low.args:
+                    k = low.args[0] if low.args[1] is A else low.args[1]
+                    if tm.is_const(k) and _pi_like(-tm.f_of(k), math.pi, tm.csize(k)):
+                        return A
+        return None
     if theta.op != 'fmin~' or len(theta.args) != 2:
         return None
     for A, mx in ((theta.args[0], theta.args[1]), (theta.args[1], theta.args[0])):
@@ -971,6 +998,9 @@ def run(ctx):
                             eps = tm.fconst(1e-4, sz)
                             okG = G.op == 'or' and len(G.args) == 2 and all(x.op == 'fle' and S.eq(alg.nf(x.args[0]), ln) for x in G.args) and \
                                 {id(x.args[1]) for x in G.args} == {id(views[2].lanes[0]), id(eps)}
+                            if not okG and G.op == 'fle' and S.eq(alg.nf(G.args[0]), ln) and G.args[1].op in ('fmax', 'fmax~') and \
+                                    {id(x) for x in G.args[1].args} == {id(views[2].lanes[0]), id(eps)}:
+                                okG = True        # len <= max(d, 1e-4): the same condition
                             if not okG:
                                 bad = 'guard is %s, expected len <= d || len <= 1e-4' % tm.show(G, 0, 3)[:200]
                             elif any(x is not y for x, y in zip(A_, views[1].lanes)):
